@@ -11,7 +11,7 @@ func init() {
 	register(&Spec{
 		ID:          "C05",
 		Loads:       []LoadSpec{{Patterns: []string{"./lnwallet", "./contractcourt"}}},
-		Explanation: "Decides that a received commitment enters the local chain only after the commitment signature (ECDSA true-edge or musig2 ok-edge), every HTLC verification job and the aux verification succeeded; that the HTLC signatures are matched one-to-one to the non-dust HTLC outputs and stored for later use; that the resolutions built after a close use the same second-level arguments that were verified, skip exactly the HTLCs HtlcIsDust trims for the owner of the confirmed commitment and carry the CSV delay of their branch (to_self delay on the own commitment, second-level input sequence on the counterparty's); that every HTLC resolution set is derived from the fee rate, HTLC list and commitment point of the very commitment that confirmed; and that the broadcastable commitment pairs keys and signatures in the fixed order.",
+		Explanation: "Decides that a received commitment enters the local chain only after the commitment signature (ECDSA true-edge or musig2 ok-edge), every HTLC verification job and the aux verification succeeded; that the HTLC signatures are matched one-to-one to the non-dust HTLC outputs and stored for later use; that the resolutions built after a close use the same second-level arguments that were verified, skip exactly the HTLCs HtlcIsDust trims for the owner of the confirmed commitment and carry the CSV delay of their branch (to_self delay on the own commitment, second-level input sequence on the counterparty's); that every HTLC resolution set is derived from the fee rate, HTLC list and commitment point of the very commitment that confirmed; and that the broadcastable commitment pairs keys and signatures in the fixed order; that a local force close resolves the database's HTLCs only for the state number its keys were derived at; that a final-taproot channel is never given a CSV delay of zero; that signer and verifier hand the aux job the leaf the second-level transaction was built with; that every taproot script constructor call selects the script flavour by ChanType.IsTaprootFinal(); and that a lease expiry is selected before any script is derived from it.",
 		NotDecided: []string{
 			"script-interpreter verdicts for the signed commitment, second-level transactions and sweeps",
 			"that the claimable value equals balance plus HTLCs due", "CSV / CLTV maturity arithmetic",
@@ -132,8 +132,8 @@ func runC05(r *an.Run) {
 		})
 
 	r.Obl("resolutions-built-like-verified", "ROLE",
-		"newOutgoingHtlcResolution / newIncomingHtlcResolution build the second-level timeout / success transaction with amount minus the matching fee, the HTLC's own timeout, and the revocation / to-local keys of the key ring they are given; extractHtlcResolutions forwards one (csvDelay, whoseCommit, keyRing) triple selected by the commitment owner; both close-summary constructors hand extractHtlcResolutions the fee rate and the HTLC list of the same commitment",
-		"what was verified (or signed) at commitment time must be exactly what is built when the commitment confirms, else the stored signature does not fit the rebuilt transaction", 10,
+		"newOutgoingHtlcResolution / newIncomingHtlcResolution build the second-level timeout / success transaction with amount minus the matching fee, the HTLC's own timeout, and the revocation / to-local keys of the key ring they are given; extractHtlcResolutions forwards one (csvDelay, whoseCommit, keyRing) triple selected by the commitment owner; both close-summary constructors hand extractHtlcResolutions the fee rate and the HTLC list of the same commitment; NewLocalForceCloseSummary, which takes both from the database's local commitment while the keys belong to the state number that confirmed, hands that list over only where the state number the key ring was derived at was compared equal to that commitment's CommitHeight, and the empty list (nil, assigned only below the inequality) otherwise",
+		"what was verified (or signed) at commitment time must be exactly what is built when the commitment confirms, else the stored signature does not fit the rebuilt transaction", 17,
 		func(o *an.Obl) {
 			roleSites(o, p, []string{"lnwallet"}, lw+"CreateHtlcTimeoutTx", []role{
 				{Fn: lw + "genRemoteHtlcSigJobs", Name: "signer (C01)", Args: map[int]string{}},
@@ -179,13 +179,18 @@ func runC05(r *an.Run) {
 				a := f.ArgCanon(cs[0])
 				o.Site("%s: fee=%s whose=%s htlcs=%s cfg=(%s,%s) initiator=%s", fn, a[0], a[1], a[3], a[5], a[6], a[10])
 				feeBase := strings.TrimSuffix(strings.TrimPrefix(a[0], "lnwallet/chainfee.SatPerKWeight("), ".FeePerKw)")
-				if a[3] != feeBase+".Htlcs" {
-					o.FailAt(fn+"#fee-and-htlcs-same-commitment", cs[0].Where(), "the HTLC list %s and the fee rate %s are taken from different commitments", a[3], a[0])
+				remote := fn == lw+"NewUnilateralCloseSummary"
+				if remote {
+					// the confirmed commitment is a parameter: its own list
+					if a[3] != feeBase+".Htlcs" {
+						o.FailAt(fn+"#fee-and-htlcs-same-commitment", cs[0].Where(), "the HTLC list %s and the fee rate %s are taken from different commitments", a[3], a[0])
+					}
+				} else {
+					c05HtlcsOfTheConfirmedState(o, f, cs[0], feeBase, a)
 				}
 				if !strings.HasSuffix(a[5], "LocalChanCfg") || !strings.HasSuffix(a[6], "RemoteChanCfg") {
 					o.FailAt(fn+"#cfg-order", cs[0].Where(), "extractHtlcResolutions must receive (local cfg, remote cfg); got (%s, %s)", a[5], a[6])
 				}
-				remote := fn == lw+"NewUnilateralCloseSummary"
 				if remote && (a[1] != "lntypes.Remote" || !reMatch(`^!`+pp+`\.IsInitiator$`, a[10])) || !remote && (a[1] != "lntypes.Local" || !reMatch(`^`+pp+`\.IsInitiator$`, a[10])) {
 					o.FailAt(fn+"#owner", cs[0].Where(), "commitment owner / initiator flag mismatch: (%s, %s)", a[1], a[10])
 				}
